@@ -107,6 +107,22 @@ def flag_bit(name):
 
 
 bits = {n: flag_bit(n) for n in ("MIN_WIDTH", "PRECISION", "FILL_CHARACTER", "REPRESENTATION")}
+# the decoder's accepted range must cover every byte the compiler can write: two alignment bits + the four options
+if sf_flags_max < (0b11 | sum(bits.values())):
+    sys.exit(f"op_table: StringFormatFlags::try_from accepts byte <= {sf_flags_max}, but alignment | all options = "
+             f"{0b11 | sum(bits.values())}: the decoder rejects flags the compiler emits")
+
+
+def fn_flag_bit(name):
+    m = re.search(r"const " + name + r": u8 = 1 << (\d+);", ins_src)
+    if not m:
+        sys.exit(f"op_table: FunctionFlags::{name} not found")
+    return 1 << int(m.group(1))
+
+
+fn_bits = {n: fn_flag_bit(n) for n in ("VARIADIC", "GENERATOR", "ARG_IS_UNPACKED_TUPLE", "NON_LOCAL_ACCESS")}
+if fn_flags_max < sum(fn_bits.values()):
+    sys.exit(f"op_table: FunctionFlags::try_from accepts byte <= {fn_flags_max}, but all flags = {sum(fn_bits.values())}")
 
 # ---- MetaKeyId / StringFormatRepresentation ------------------------------------------------------------
 node_src = read("crates/parser/src/node.rs")
@@ -159,6 +175,8 @@ out.append(f"/-- `FunctionFlags::try_from` accepts `byte ≤ functionFlagsMax`. 
 out.append(f"def functionFlagsMax : Nat := {fn_flags_max}")
 out.append(f"/-- `StringFormatFlags::try_from` accepts `byte ≤ stringFormatFlagsMax`. -/")
 out.append(f"def stringFormatFlagsMax : Nat := {sf_flags_max}")
+out.append(f"/-- `FunctionFlags::NON_LOCAL_ACCESS` -/")
+out.append(f"def fnNonLocalAccess : Nat := {fn_bits['NON_LOCAL_ACCESS']}")
 out.append(f"def sfMinWidth : Nat := {bits['MIN_WIDTH']}")
 out.append(f"def sfPrecision : Nat := {bits['PRECISION']}")
 out.append(f"def sfFillCharacter : Nat := {bits['FILL_CHARACTER']}")
